@@ -124,6 +124,14 @@ def strip_accelerators(gitdir: str, kinds=("cg", "midx", "bitmap", "packed-refs"
                 os.unlink(p)
 
 
+def _file_digest(path):
+    try:
+        with open(path, "rb") as f:
+            return hashlib.sha1(f.read()).hexdigest()
+    except FileNotFoundError:
+        return None
+
+
 def pack_basenames(gitdir: str):
     pd = os.path.join(gitdir, "objects", "pack")
     if not os.path.isdir(pd):
@@ -403,7 +411,12 @@ class Exec:
                 store.write_commit_graph(list(self.repo.refs.as_dict().values()), reachable=False)
             else:
                 args = ["commit-graph", "write", "--reachable"] + (["--changed-paths"] if w == "git-bloom" else [])
+                before = _file_digest(os.path.join(self.path, "objects", "info", "commit-graph"))
                 if not self.git(args):
+                    return
+                if before == _file_digest(os.path.join(self.path, "objects", "info", "commit-graph")):
+                    # git writes nothing in a shallow repository (and exits 0): whatever was there is still there
+                    self.labels.add("git-commit-graph-write-was-a-no-op")
                     return
             if accel_files(self.path)["cg"]:
                 self.wrote("cg", w)
@@ -1249,7 +1262,7 @@ def run(ctx):
     selftest(ctx)
     ctx.note("git_version", cgit.version())
     ctx.parallel(_fixed_part, [[c] for c in FIXED])
-    per = ctx.scale(55, 2600)
+    per = ctx.scale(55, 2000)
     ctx.parallel(_part, [per] * 16)
     ab = ctx.extra.get("abandoned", 0)
     if ab * 5 > max(1, ctx.evaluations):
